@@ -137,6 +137,16 @@ def prettyWrites (g : Nat) (oldname : List Byte) : List Nat :=
 def pretty (cap g : Nat) (oldname : List Byte) : Out Unit :=
   runWrites (.fixed cap) (prettyWrites g oldname)
 
+/-- index at which `PrettyTmpName` stores the terminator = upper bound of the length of the string it returns -/
+def prettyOutLen (g : Nat) (oldname : List Byte) : Nat := (prettyLoop g 0 (cstr oldname)).2
+
+/-- `Registry::FindEntity`: `strcpy( schformat, PrettyTmpName( schNm ) )` — `schNm` is the FILE_SCHEMA name of the file.
+(`cap = none`: the tree has no such copy.) -/
+def schformatCopy (cap : Option Nat) (g : Nat) (schNm : List Byte) : Out Unit :=
+  match cap with
+  | none => .ok ()
+  | some c => runWrites (.fixed c) (copyWrites none (prettyOutLen g schNm))
+
 /-! ### EntNode( const char * nm ) -/
 
 /-- `strncpy( dst, src, n )` writes exactly `n` bytes (copy, then NUL padding) -/
